@@ -23,6 +23,8 @@ func init() {
 			"(\"the same settling period\"). A failed UpdateStatus after a release drops the computed ReprocessAll (fault sequence; noted in DESIGN.md O-1).",
 		Run: runC07,
 		Mutants: []Mutant{
+			{Name: "controller-pools-stored-only-when-non-empty", File: "controller/main.go",
+				Old: "\tc.pools = pools\n\n\treturn controllers.SyncStateReprocessAll", New: "\tif len(pools.ByName) > 0 {\n\t\tc.pools = pools\n\t}\n\n\treturn controllers.SyncStateReprocessAll", Expect: "SETPOOLS-REPROCESS"},
 			{Name: "key-compared-after-the-no-change-exit", File: "controller/main.go",
 				Old: "\tnewAllocKey := c.ips.AllocationKey(name)\n\n\tif prevAllocKey != newAllocKey {\n\t\tlevel.Debug(l).Log(\"event\", \"allocation key changed\", \"msg\", \"allocation changed for shared service, reprocessing\")\n\t\tsyncStateRes = controllers.SyncStateReprocessAll\n\t}\n\n\tif reflect.DeepEqual(svcRo, svc) {\n\t\tlevel.Debug(l).Log(\"event\", \"noChange\", \"msg\", \"service converged, no change\")\n\t\treturn syncStateRes\n\t}\n", New: "\tif reflect.DeepEqual(svcRo, svc) {\n\t\tlevel.Debug(l).Log(\"event\", \"noChange\", \"msg\", \"service converged, no change\")\n\t\treturn syncStateRes\n\t}\n\n\tnewAllocKey := c.ips.AllocationKey(name)\n\n\tif prevAllocKey != newAllocKey {\n\t\tlevel.Debug(l).Log(\"event\", \"allocation key changed\", \"msg\", \"allocation changed for shared service, reprocessing\")\n\t\tsyncStateRes = controllers.SyncStateReprocessAll\n\t}\n", Expect: "key-compared-on-every-exit"},
 			{Name: "reload-request-dropped-when-busy", File: "internal/k8s/controllers/service_controller_reload.go",
